@@ -3,7 +3,7 @@
 import ast
 
 from ..framework import RuleResult, Finding
-from ..model import src_of
+from ..model import src_of, dotted
 from .. import AnalysisError
 
 BUILDER = "quimb.operator.builder"
@@ -425,4 +425,48 @@ def rule_blocked_per_call(ctx):
                     r.bad(Finding("blocked-per-call", construct, f"`blocked={src_of(bl)}` does not depend on the symmetry resolved for this call ({sect[1] if sect else 'get_sector_numba result'})",
                                   where=f"{f.module.relpath}:{c.lineno}", operand="blocked"))
     r.floor(n, 2, "coupling-map requests with a blocked flag")
+    return r
+
+
+def rule_cyclic_site_wrap(ctx):
+    r = RuleResult(
+        "cyclic-site-wrap",
+        "a builder that embeds two-site terms with ikron(ops, dims, [i, i + 1]) inside a loop over all L sites — the loop only stops before "
+        "the last site for open boundaries (`if i + 1 == L and not cyclic: break`) — reaches i = L - 1 for a periodic system: the partner "
+        "site has to be reduced modulo L there, `i + 1` itself is outside the chain and the second operator of the wrap-around bond is never placed",
+    )
+    n = 0
+    for modname in ("quimb.tensor.tensor_builder", "quimb.gen.operators"):
+        m = ctx.prog.modules.get(modname)
+        if m is None:
+            continue
+        for f in m.all_functions:
+            if f.is_alias or isinstance(f.node, ast.Lambda):
+                continue
+            for lp in ast.walk(f.node):
+                if not (isinstance(lp, ast.For) and isinstance(lp.target, ast.Name) and isinstance(lp.iter, ast.Call) and dotted(lp.iter.func) == "range" and len(lp.iter.args) == 1):
+                    continue
+                ivar = lp.target.id
+                # the loop covers the last site for periodic systems: it breaks / skips only under `not ... cyclic`
+                mentions_cyclic = any((isinstance(y, ast.Name) and y.id == "cyclic") or (isinstance(y, ast.Attribute) and y.attr == "cyclic") for st in lp.body if isinstance(st, ast.If) for y in ast.walk(st.test))
+                if not mentions_cyclic:
+                    continue
+                for c in ast.walk(lp):
+                    if not (isinstance(c, ast.Call) and (dotted(c.func) or "").split(".")[-1] == "ikron" and len(c.args) >= 3 and isinstance(c.args[2], (ast.List, ast.Tuple))):
+                        continue
+                    n += 1
+                    unwrapped = []
+                    for e in c.args[2].elts:
+                        for b in ast.walk(e):
+                            if isinstance(b, ast.BinOp) and isinstance(b.op, ast.Add) and any(isinstance(y, ast.Name) and y.id == ivar for y in ast.walk(b)):
+                                under_mod = any(isinstance(mm, ast.BinOp) and isinstance(mm.op, ast.Mod) and any(z is b for z in ast.walk(mm.left)) for mm in ast.walk(e))
+                                if not under_mod:
+                                    unwrapped.append(b)
+                    q = f.qualname
+                    if unwrapped:
+                        r.bad(Finding("cyclic-site-wrap", q, f"`{src_of(c.args[2])}` embeds the partner at `{src_of(unwrapped[0])}` inside a loop that reaches the last site of a periodic chain: "
+                                                             "the wrap-around bond lands outside the system", where=f"{m.relpath}:{c.lineno}", operand="partner"))
+                    else:
+                        r.ok(q, sample={"builder": q, "sites": src_of(c.args[2])})
+    r.floor(n, 1, "two-site embeddings inside loops that cover the last site of a periodic chain")
     return r
